@@ -320,12 +320,10 @@ impl WmoWriter {
             return Ok(());
         }
 
-        // Determine material size based on version
-        let material_size = if target_version >= WmoVersion::Mop {
-            64
-        } else {
-            40
-        };
+        // Every material record written below is 64 bytes (36 bytes of fields + 28 bytes of
+        // padding) in every version; the parser reads 64-byte records as well.
+        let _ = target_version;
+        let material_size = 64;
 
         let header = ChunkHeader {
             id: chunks::MOMT,
